@@ -87,6 +87,7 @@ class Result:
         if len(self.violations) < 50:
             self.violations.append({'key': key, 'case': case, 'msg': str(msg)[:2000]})
         self.count('violations_raw')
+        self.count('viol:' + key.rsplit('/', 1)[-1])
 
     def merge(self, other):
         self.evals += other.evals
